@@ -243,6 +243,44 @@ def random_cfg(rng, n, w, outcomes, inits=None, cyclic=False, p_edge=0.55, calls
     return cfg
 
 
+def nested_cfg(rng, n, w, outcomes):
+    """A configuration whose hard graph contains nested DepGraph nodes (groups of two tasks).  The flat edges in
+    cfg['edges'] are derived here from the documented grafting rule, independently of the implementation's flatten()."""
+    ids = list(range(1, n + 1))
+    rng.shuffle(ids)
+    ngroups = 1 if n < 5 or rng.random() < 0.5 else 2
+    groups = [sorted(ids[2 * g:2 * g + 2]) for g in range(ngroups)]
+    grouped = set(x for g in groups for x in g)
+    intra = [[max(g), min(g)] for g in groups if rng.random() < 0.6]          # inside a group: the later task depends on the earlier
+    units = ['g%d' % k for k in range(len(groups))] + ['t%d' % i for i in range(1, n + 1) if i not in grouped]
+    unit_order = list(units)
+    rng.shuffle(unit_order)                     # node order of the graph (a nested node need not be last)
+    rank = {u: k for k, u in enumerate(sorted(units))}
+    uedges = [[a, b] for a in units for b in units if rank[b] < rank[a] and rng.random() < 0.55]
+
+    def members(u):
+        return groups[int(u[1:])] if u[0] == 'g' else [int(u[1:])]
+
+    def terminal(u):        # nodes of the unit that depend on nothing inside it (executed first)
+        return [i for i in members(u) if not any(e[0] == i for e in intra if e[1] in members(u))]
+
+    def initial(u):         # nodes of the unit nobody inside it depends on (executed last)
+        return [i for i in members(u) if not any(e[1] == i for e in intra if e[0] in members(u))]
+    edges = [[i, j, 'hard'] for i, j in intra]
+    for a, b in uedges:
+        for i in terminal(a):
+            for j in initial(b):
+                edges.append([i, j, 'hard'])
+    # soft edges between tasks, kept acyclic with the hard ones by following the unit ranks
+    trank = {i: rank[u] for u in units for i in members(u)}
+    for i in range(1, n + 1):
+        for j in range(1, n + 1):
+            if trank[j] < trank[i] and rng.random() < 0.2 and not any(e[0] == i and e[1] == j for e in edges):
+                edges.append([i, j, 'soft'])
+    return dict(n=n, workers=w, edges=edges, outcome={str(i): rng.choice(outcomes) for i in range(1, n + 1)},
+                nested=dict(groups=groups, intra=intra, uedges=uedges, unit_order=unit_order))
+
+
 def explore(ctx, cfgs, per_cfg, seed):
     """Seeded random + PCT schedules of the real code."""
     import detsched
@@ -457,6 +495,8 @@ def replay_case(case):
     c = case['cfg']
     cfg = dict(n=c['n'], workers=c['workers'], edges=c['edges'], outcome={str(i + 1): o for i, o in enumerate(c['outcome'])},
                init={str(i + 1): s for i, s in enumerate(c['init']) if s != 'ABSENT'}, calls=c.get('calls', 1))
+    if c.get('nested'):
+        cfg['nested'] = c['nested']
     ex, trace = schedrun.record(cfg, detsched.Replay(case['schedule']))
 
     class _Ctx:
@@ -548,7 +588,10 @@ def _common(ctx, invs, mc_runs, witnesses, impl_plan, sim_plan, dfs_plan):
         n, w, outcomes, inits, cyclic, ncfg, per = item[:7]
         calls = item[7] if len(item) > 7 else 1
         rng = random.Random(ctx.seed * 7919 + n * 31 + w + 1000 * calls)
-        cfgs = [random_cfg(rng, n, w, outcomes, inits, cyclic, calls=calls) for _ in range(ncfg)]
+        if cyclic == 'nested':
+            cfgs = [nested_cfg(rng, n, w, outcomes) for _ in range(ncfg)]
+        else:
+            cfgs = [random_cfg(rng, n, w, outcomes, inits, cyclic, calls=calls) for _ in range(ncfg)]
         all_groups.setdefault((n, w, calls), []).extend(explore(ctx, cfgs, per, ctx.seed))
     _tick(ctx, 'random/PCT exploration')
     for cfg, budget in dfs_plan:
@@ -588,7 +631,9 @@ def run_c01(ctx):
     _common(ctx, INV_C01, mc, ['W_DecideDuringPub', 'W_TwoRunning', 'W_WaitReached'],
             impl_plan=[(3, 2, OUT_ALL, None, False, ctx.pick(25, 120), ctx.pick(12, 30)),
                        (4, 3, OUT_ALL, ['ABSENT', 'DONE'], False, ctx.pick(15, 80), ctx.pick(10, 30)),
-                       (5, 4, ['ok', 'ok', 'fail', 'raise'], None, False, ctx.pick(8, 40), ctx.pick(8, 25))],
+                       (5, 4, ['ok', 'ok', 'fail', 'raise'], None, False, ctx.pick(8, 40), ctx.pick(8, 25)),
+                       (4, 2, ['ok', 'ok', 'fail'], None, 'nested', ctx.pick(25, 120), ctx.pick(6, 15)),
+                       (5, 3, ['ok', 'ok', 'raise'], None, 'nested', ctx.pick(15, 80), ctx.pick(6, 15))],
             sim_plan=[('c01sim_n3w2', 3, 2, 'MC_DagEmpty3', ctx.pick(250, 2500), 60),
                       ('c01sim_n2w2', 2, 2, 'MC_DagInit', ctx.pick(100, 800), 50)],
             dfs_plan=[(PAIR, ctx.pick(1500, 40000)), (REUSE, ctx.pick(1500, 40000))] + ([] if q else [(CHAIN3, 60000)]))
